@@ -383,54 +383,92 @@ func ruleNHGReferences(c *Ctx) {
 		return
 	}
 	holder, orig, nw := ps[0], ps[1], ps[2]
-	incOK, decOK := false, false
-	var stray []string
+	// which member loop does each counter call sit in
+	type loopOf struct {
+		root types.Object
+		path string
+		val  types.Object
+		rs   *ast.RangeStmt
+	}
+	callLoop := map[*ast.CallExpr]loopOf{}
+	memberLoops := map[ast.Node]bool{}
 	inspectNoFuncLit(fi.Decl.Body, func(n ast.Node) bool {
 		rs, ok := n.(*ast.RangeStmt)
 		if !ok {
 			return true
 		}
-		ro, rp := selectorPath(info, rs.X)
-		rv := objOfIdent(info, rs.Value)
+		ro, rp := selectorPath(info, resolveLocal(info, fi.Decl, rs.X))
+		if (ro == nw || ro == orig) && strings.Join(rp, ".") == "NextHop" {
+			memberLoops[rs] = true
+		}
 		for _, call := range callsIn(rs.Body) {
-			f, ok := calleeObj(info, call).(*types.Func)
-			if !ok {
-				continue
-			}
-			if f.Name() != "incNHRefCount" && f.Name() != "decNHRefCount" || len(call.Args) != 1 {
-				continue
-			}
-			se, _ := ast.Unparen(call.Fun).(*ast.SelectorExpr)
-			onHolder := se != nil && objOfIdent(info, se.X) == holder
-			ao, ap := selectorPath(info, call.Args[0])
-			argIsMember := rv != nil && ao == rv && strings.Join(ap, ".") == "Index"
-			unconditional := len(rs.Body.List) == 1
-			switch f.Name() {
-			case "incNHRefCount":
-				if onHolder && argIsMember && unconditional && ro == nw && strings.Join(rp, ".") == "NextHop" {
-					incOK = true
-				} else {
-					stray = append(stray, "inc over "+types.ExprString(rs.X))
-				}
-			case "decNHRefCount":
-				if onHolder && argIsMember && unconditional && ro == orig && strings.Join(rp, ".") == "NextHop" {
-					// guarded by original != nil
-					if ifs := enclosingIf(fi.Decl.Body, rs); ifs != nil && types.ExprString(ifs.Cond) == orig.Name()+" != nil" {
-						decOK = true
-					} else {
-						stray = append(stray, "dec loop not guarded by "+orig.Name()+" != nil")
-					}
-				} else {
-					stray = append(stray, "dec over "+types.ExprString(rs.X))
-				}
+			if _, seen := callLoop[call]; !seen {
+				callLoop[call] = loopOf{ro, strings.Join(rp, "."), objOfIdent(info, rs.Value), rs}
 			}
 		}
 		return true
 	})
-	c.Sites += 2
-	c.check(incOK && decOK && len(stray) == 0, rule, fi.Name, "inc every new member, dec every replaced member", c.P.pos(fi.Decl.Pos()),
-		"for m in new.NextHop: inc(m.Index); if original != nil: for m in original.NextHop: dec(m.Index)",
-		fmt.Sprintf("member reference bookkeeping deviates (inc loop ok=%v, dec loop ok=%v, other: %v)", incOK, decOK, stray))
+	ev := func(n ast.Node) []Event {
+		var out []Event
+		for _, call := range callsIn(n) {
+			f, ok := calleeObj(info, call).(*types.Func)
+			if !ok || (f.Name() != "incNHRefCount" && f.Name() != "decNHRefCount") || len(call.Args) != 1 {
+				continue
+			}
+			se, _ := ast.Unparen(call.Fun).(*ast.SelectorExpr)
+			onHolder := se != nil && objOfIdent(info, se.X) == holder
+			lp, inLoop := callLoop[call]
+			ao, ap := selectorPath(info, resolveLocal(info, fi.Decl, call.Args[0]))
+			argIsMember := inLoop && lp.val != nil && ao == lp.val && strings.Join(ap, ".") == "Index"
+			kind := "stray:" + f.Name() + "(" + types.ExprString(call.Args[0]) + ")"
+			if onHolder && argIsMember && lp.path == "NextHop" {
+				switch {
+				case f.Name() == "incNHRefCount" && lp.root == nw:
+					kind = "inc-new-member"
+				case f.Name() == "decNHRefCount" && lp.root == orig:
+					kind = "dec-old-member"
+				}
+			}
+			out = append(out, Event{Kind: kind, Node: call})
+		}
+		return out
+	}
+	// every member loop is taken to run once: what happens to one member happens to all
+	paths, pe := enumFunc(fi, ev, func(n ast.Node) bool { return memberLoops[n] })
+	c.Sites += len(paths)
+	if pe.overflow || len(pe.unsup) > 0 || len(paths) == 0 {
+		c.undecided(rule, fi.Name, "body", c.P.pos(fi.Decl.Pos()), "path enumeration incomplete")
+		return
+	}
+	bad := ""
+	origNil := eqAtom("nil", varKey(orig))
+	for _, p := range paths {
+		if p.End == "panic" {
+			continue
+		}
+		var evs []string
+		for _, e := range p.Events {
+			evs = append(evs, e.Kind)
+		}
+		sort.Strings(evs)
+		got := strings.Join(evs, ",")
+		isNil := p.Entails(&FLit{origNil, 2, 2})
+		notNil := p.Entails(&FLit{origNil, 2, 1})
+		switch {
+		case isNil && got == "inc-new-member":
+		case notNil && got == "dec-old-member,inc-new-member":
+		case !isNil && !notNil:
+			bad = "a path does not decide whether an entry was replaced: " + p.describe(c.P)
+		default:
+			want := "inc-new-member"
+			if notNil {
+				want = "dec-old-member,inc-new-member"
+			}
+			bad = fmt.Sprintf("per member the path performs [%s], want [%s] (every member of the new group gains a reference, every member of the replaced group loses one, unconditionally): %s", got, want, p.describe(c.P))
+		}
+	}
+	c.check(bad == "" && len(memberLoops) >= 2, rule, fi.Name, "inc every new member, dec every replaced member", c.P.pos(fi.Decl.Pos()),
+		fmt.Sprintf("%d paths: for m in new.NextHop: inc(m.Index); if original != nil: for m in original.NextHop: dec(m.Index)", len(paths)), bad)
 }
 
 // R3.2
